@@ -148,7 +148,7 @@ func (prop) Run(t *testing.T, tape *kernel.Tape, sc kernel.Scenario) *kernel.Res
 				v[k] = []string{}
 			}
 			for j := 0; j < nv; j++ {
-				v[k] = append(v[k], fmt.Sprintf("%s%d%s", label, j, []string{"", " x", "&y=z", "/"}[tape.Choose(4, label+"-v")]))
+				v[k] = append(v[k], fmt.Sprintf("%s%d%s", label, j, []string{"", " x", "&y=z", "/", "=http://x//cb", "/a/../b", "/./c", "/dir/"}[tape.Choose(8, label+"-v")]))
 			}
 			keys = append(keys, k)
 		}
